@@ -48,6 +48,12 @@ class DtypeStrings(Contract):
                 chk('render_fxp', x.get_dtype('fxp') == want_fxp, [f, default, x.get_dtype('fxp')])
                 chk('render_Q', x.get_dtype('Q') == want_q, [f, default, x.get_dtype('Q')])
                 chk('render_none', x.get_dtype() == (want_fxp if default == 'fxp' else want_q), [f, default])
+            # the configured notation travels with the configuration: config= objects, and results of arithmetic
+            if n <= 30 and abs(f) <= 30:
+                xq = Fxp(None, s, n, f, config=P.Config(dtype_notation='Q'))
+                chk('render_default', xq.dtype == want_q, [f, 'config=Config(Q)', xq.dtype])
+                a_ = Fxp(0, s, n, f, dtype_notation='Q'); r_ = a_ + a_
+                chk('render_default', r_.dtype == spec_q(r_.signed, r_.n_word, r_.n_frac) and r_.get_dtype('fxp') == spec_fxp(r_.signed, r_.n_word, r_.n_frac), [f, 'a+a under Q', r_.dtype])
             # parsing the fxp spelling (and its upper-case form) by constructor and by resize
             for text in (want_fxp, want_fxp.upper()):
                 y = Fxp(None, dtype=text)
@@ -70,6 +76,8 @@ class DtypeStrings(Contract):
                     chk('parse_like_complex', (yl.signed, yl.n_word, yl.n_frac) == (s, n, f) and yl.dtype == ctext and yl.vdtype == complex, [f, ctext, yl.dtype])
                 yl = Fxp(None, like=Fxp(1 + 1j, not s, 9, 2), dtype=want_fxp)                # like= a COMPLEX reference + a real dtype string: sizes follow the string
                 chk('parse_like_real', (yl.signed, yl.n_word, yl.n_frac) == (s, n, f), [f, want_fxp, yl.dtype])
+                zv = Fxp(0.0, not s, 9, 1); zv.resize(dtype=ctext)       # ... a real object HOLDING A VALUE resized with a complex dtype string
+                chk('parse_resize_complex', zv.dtype == ctext and zv.vdtype == complex, [f, ctext, 'holding a value', zv.dtype])
                 zc = Fxp(None, s, n, f); zc.resize(dtype=ctext)          # a real object resized with a complex dtype string
                 chk('parse_resize_complex', zc.dtype == ctext and zc.get_dtype('fxp') == ctext and zc.vdtype == complex, [f, ctext, zc.dtype])
                 zr = Fxp(1 + 1j, s, n, f); zr.resize(dtype=want_fxp)
